@@ -146,6 +146,12 @@ def write_case(case, d):
             if k in ('AxialRegion', 'SpacerGrid', 'FuelModel', 'PinModel',
                      'Hotspot') or k.startswith('_'):
                 continue
+            if k == 'duct_ftf' and case.get('ftf_listing'):
+                # the same ducts listed in another order (nesting is by
+                # magnitude): descending, or the outermost duct first
+                asc = sorted(v)
+                v = (asc[::-1] if case['ftf_listing'] == 'desc'
+                     else asc[-2:] + asc[:-2])
             out.append(f'        {k} = {_fmt(v)}')
         if 'AxialRegion' in t:
             out.append('        [[[AxialRegion]]]')
